@@ -10,7 +10,8 @@ RULE = ("values of every scalar kind and containers nested to depth 4 in every l
         "loops, blocks) which must not write; printing nil or a function at top level and nested. Output is compared "
         "byte for byte (record entries up to order) with the Lean model and the structured semantics. "
         "Non-trivial: a container of depth >= 2 or a shared sub-container is printed."
-        ' Number-representations family: 2^63, 2^64, 10^19, 10^21, 10^40, four ways to minus zero, tiny products, 30 factorials; alone, in lists, in records, doubled, through _স্ট্রিং and back.')
+        ' Number-representations family: 2^63, 2^64, 10^19, 10^21, 10^40, four ways to minus zero, tiny products, 30 factorials; alone, in lists, in records, doubled, through _স্ট্রিং and back.'
+        ' Shared name-collision family (props/collisions.py): 24 scenarios in which one name is bound more than once, x 2 layouts.')
 ASSUMPTIONS = ["record entry order is unspecified; outputs are matched up to permutation of entries", "see C09 for number text"]
 default_compare = lambda m, i: C.compare_run(m, i)
 
@@ -140,4 +141,10 @@ def cases(rng, tier, stats):
     stats["number_representation_programs"] = nb + 1
     stats["programs"] = n
     stats["with_depth_ge_2"] = deep
+    # one name in two roles (props/collisions.py): shadowed functions, parameters named like globals / built-ins / their own function,
+    # bare conditions, indexed and plain writes, re-declarations — every use of a name resolves to its innermost binding
+    from props import collisions
+    nc_ = collisions.family()
+    out += nc_
+    stats["name_collision_programs"] = len(nc_)
     return out
